@@ -111,6 +111,25 @@ static void traj_case(Rng &r, const std::string &fmt) {
     {
       std::unique_ptr<TrajectoryWriter> w = TrjWriterFactory().Create(file);
       if (!w) throw std::runtime_error("no writer");
+      // one trajectory in three is written by a writer object that has written another file before — with the opposite presence of
+      // velocities and forces: what a writer keeps from an earlier file must not shape the next one
+      static long reuse_ctr = 0;
+      if (++reuse_ctr % 3 == 0 && !frames.empty()) {
+        try {
+          Topology top2;
+          fill(top2, n, !vel, !frc);
+          top2.SetHasVel(!vel);
+          top2.SetHasForce(!frc);
+          auto f2 = frames[0];
+          f2.vel = f2.pos; f2.frc = f2.pos;
+          std::string warm = file + ".warm";
+          w->Open(warm, false);
+          set_frame(top2, f2, !vel, !frc);
+          w->Write(&top2);
+          w->Close();
+          unlink(warm.c_str());
+        } catch (std::exception &) {}
+      }
       w->Open(file, false);
       for (auto &f : frames) { set_frame(top, f, vel, frc); w->Write(&top); }
       w->Close();
